@@ -50,6 +50,7 @@ ALPHABET = [
     ("ma_order:diff", 1), ("ma_order:same", 0), ("ma_order:neg", 0), ("ma_order:none", 0),
     ("npscalar:ar_order", 0), ("npscalar:ma_order", 0), ("npscalar:lag", 0), ("npscalar:sampling", 0),
     ("npscalar:scale", 0), ("npscalar:NFFT", 0),
+    ("setconst:call", 0), ("setconst:run", 0),
     ("inject:0:before", 1), ("inject:0:after", 0), ("inject:1:before", 1), ("inject:1:after", 0),
     ("inject:2:before", 0), ("inject:2:after", 0), ("inject:3:before", 0),
     ("inject:0:before:LinAlgError", 0), ("inject:0:before:FloatingPointError", 0),
@@ -62,10 +63,23 @@ FAULTY = {"sampling:nonpositive", "data:tuple", "plot:fail", "ma_order:eq_ar", "
 MODES = ("fault_free", "natural", "injected", "mixed")
 
 
+# class-specific plain attributes (not among the attributes the statement lists, so a lazy read owes them
+# nothing) that an EXPLICIT computation must honour: assigned and followed by p() / p.run() in one operation.
+# const key -> attribute name, candidate values
+SETCONST = {
+    "pburg": [("criteria", "criteria", [None, "AIC", "FPE", "MDL", "AICc"])],
+    "pmusic": [("NSIG", "NSIG", [1, 2, 3]), ("eig_criteria", "criteria", ["aic", "mdl"]), ("threshold", "threshold", [0.5, 1.0, 2.0])],
+    "pev": [("NSIG", "NSIG", [1, 2, 3]), ("eig_criteria", "criteria", ["aic", "mdl"]), ("threshold", "threshold", [0.5, 1.0, 2.0])],
+    "MultiTapering": [("method", "method", ["adapt", "unity", "eigen"]), ("NW", "NW", [2.0, 2.5, 3.0])],
+}
+
+
 def applicable(aname, cls):
     head = aname.split(":")[0]
     if head == "alias_periodogram":
         return cls == "Periodogram"
+    if head == "setconst":
+        return cls in SETCONST
     if head == "npscalar":
         a = aname.split(":")[1]
         return a in ("sampling", "scale", "NFFT") or a in sut.EXTRA_ATTRS[cls]
@@ -269,6 +283,7 @@ class Run(object):
         self.nontrivial = False
         self.dirty = False         # a state-changing op or a fired fault since the previous checked read
         self.after_failed_read = False
+        self.abandoned = False     # set when a `setconst` computation raised: later steps are not applied
         self.has_psd = False       # a computation has succeeded on this object (harness-side knowledge)
         self.sides_expect = None
         self.plane = FaultPlane(self.cls)
@@ -322,6 +337,20 @@ class Run(object):
         if k == "alias_periodogram":
             p.periodogram()
             return None
+        if k == "setconst":
+            setattr(p, op["attr"], op["value"])
+            self.const = dict(self.const, **{op["key"]: op["value"]})
+            try:
+                if op["how"] == "call":
+                    p()
+                else:
+                    p.run()
+            except Exception:
+                # the statement does not say what the object holds after an explicit computation failed
+                # half way with a non-listed attribute changed: the run ends here (no later step is applied)
+                self.abandoned = True
+                raise
+            return None
         if k == "conv":
             return p.get_converted_psd("".join(list(op["sides"])))
         if k == "power":
@@ -368,11 +397,15 @@ class Run(object):
         raise KeyError(k)
 
     def _reference(self, snap, query, want_pristine):
+        # the class-specific constants as they were when the read happened (deferred references are
+        # evaluated at the end of the run, after `setconst` operations may have changed them)
+        const = snap.get("_const", self.const)
+        snap = {k: v for k, v in snap.items() if k != "_const"}
         with self.plane.oracle():
-            ref = refmodel.reference_eval(self.cls, snap, self.const, query)
+            ref = refmodel.reference_eval(self.cls, snap, const, query)
         pref = None
         if want_pristine and self.pristine is not None:
-            pref = self.pristine.eval(self.cls, snap, self.const, query)
+            pref = self.pristine.eval(self.cls, snap, const, query)
             if pref[0] == "harness":
                 raise RuntimeError("pristine reference failed: %s" % pref[1])
             self.bump("pristine_refs")
@@ -383,6 +416,9 @@ class Run(object):
         p = self.p
         if idx is None:
             idx = len(self.ops)
+        if self.abandoned:
+            self.bump("steps_skipped_after_abandon")
+            return None
         self.ops.append(op)
         k = op["op"]
         pre_state = self.abstate()
@@ -440,12 +476,13 @@ class Run(object):
         elif k != "read":
             self.last_psd = None
             self.reassigned = []
-        if k in ("set", "call", "run", "alias_periodogram") or fired:
+        if k in ("set", "call", "run", "alias_periodogram", "setconst") or fired:
             self.dirty = True
 
         # ---- checked reads --------------------------------------------
         if viol is None and k in ("read", "conv", "power") and not fired:
             snap = sut.snapshot(self.cls, p)
+            snap["_const"] = self.const
             query = {"kind": "psd"} if k == "read" else (
                 {"kind": "conv", "sides": op["sides"]} if k == "conv" else {"kind": "power"})
             self.checked_reads += 1
@@ -714,6 +751,19 @@ def concretize(aname, rng, run):
         return {"op": head}
     if head == "copy":
         return {"op": "copy", "deep": parts[1] == "deep"}
+    if head == "setconst":
+        cands = []
+        for key, attr, values in SETCONST[cls]:
+            if key in ("NSIG", "eig_criteria", "threshold") and run.const.get(key) is None:
+                continue            # the three ways of sizing the signal subspace exclude one another: keep the run's
+            if key == "NW" and run.const.get("e") is not None:
+                continue            # tapers supplied by the caller: NW is not used
+            cur = run.const.get(key, {"norm": "biased", "method": "adapt"}.get(key))
+            cands += [(key, attr, v) for v in values if v != cur]
+        if not cands:
+            return None
+        key, attr, v = rng.choice(cands)
+        return {"op": "setconst", "key": key, "attr": attr, "value": v, "how": parts[1]}
     if head == "alias_periodogram":
         # FourierSpectrum.periodogram(), documented as an alias of Periodogram: a third explicit computation.
         # Only while scale_by_freq is False: with True the pinned __call__ scales twice and the alias once (a
@@ -1200,6 +1250,8 @@ def describe(cfg, ops):
             out.append("<caller overwrites the array it assigned to data, in place>")
         elif k == "copy":
             out.append("p = copy.%s(p)" % ("deepcopy" if o.get("deep") else "copy"))
+        elif k == "setconst":
+            out.append("%s=%r, p%s()" % (o["attr"], o["value"], "" if o["how"] == "call" else ".run"))
         else:
             out.append(k + "()")
     head = "%s(%s[%d], %s) %s" % (cfg["cls"], "complex" if cfg["cplx"] else "real", len(cfg["data"]["v"]),
